@@ -1,5 +1,5 @@
 """Hazard-pointer typestate shared by C13 and C14: loaded -> published(slot) -> validated -> dereferenced."""
-from core import strip, is_field, order_ge, key_str, key_mentions
+from core import is_atomic_load, strip_to_load, atomic_load_order, strip, is_field, order_ge, key_str, key_mentions
 from facts import AnalysisBroken
 from rules import nodeset
 
@@ -29,8 +29,9 @@ def validation_edges(fn):
             l = strip(leaf)
             if l.k == "BinaryOperator" and l.op in ("!=", "=="):
                 a, c = strip(l.kids[0]), strip(l.kids[1])
-                for x, y in ((a, c), (c, a)):
-                    if x.k == "DeclRefExpr" and x.did and y.k == "AtomicExpr" and "load" in (y.aop or ""):
+                la, lc = strip_to_load(l.kids[0]), strip_to_load(l.kids[1])
+                for x, y in ((a, lc), (c, la)):
+                    if x.k == "DeclRefExpr" and x.did and is_atomic_load(y):
                         equal = (l.op == "==") == pol
                         if equal:
                             out.append((b, idx, x, y))
@@ -76,7 +77,7 @@ def check_site(ctx, P, fn, call, rule):
             if b.k == "DeclRefExpr" and b.did:
                 roots.add(b.did)
                 roots.discard(v.did)
-    good = [(b, i) for (b, i, x, y) in ves if x.did in roots and order_ge(y.order or "relaxed", "acquire")]
+    good = [(b, i) for (b, i, x, y) in ves if x.did in roots and order_ge(atomic_load_order(y), "acquire")]
     if not good:
         bad = ("no re-validation of `%s` against a fresh acquire load exists" % v.name, call, None)
     else:
